@@ -82,7 +82,7 @@ def scaleOf (o : Obj) : Op → Rat
   | .locmin a b | .locmax a b =>
     match locateCanon o.N o.x a, locateCanon o.N o.x b with
     | .ok i1, .ok i2 =>
-      rmax (rmax (scaleInterp o i1 a) (scaleInterp o i2 b)) (rabs o.pref * listAbsMax (o.knotValues i1 i2))
+      rmax (rmax (scaleInterp o i1 a) (scaleInterp o i2 b)) (rabs o.pref * listAbsMax (o.knotValues i1 (i2 + 1)))
     | _, _ => 0
   | .globmin | .globmax => rabs o.pref * listAbsMax o.ys.toList
   | _ => 0
